@@ -39,7 +39,7 @@ def run(out, info, tier, seed):
     out.assumptions = ['simulators are an oracle: any reply sequence (event list); delays that are compared have equal shape (convex group scenarios)']
     sched_check.sched_property(out, info, tier, seed, 'C02', KINDS, monitors.P_C02, gen_opts={'groups': True},
                                case_gen=case_gen,
-                               ncases=(110, 1500), variants=[(True, True), (False, True), (True, False)], nontrivial=nontrivial, features=features,
+                               ncases=(220, 2000), variants=[(True, True), (False, True), (True, False)], nontrivial=nontrivial, features=features,
                                known_match=None, hyp=None,
                                extra_obligations=[('Sched.Inv (invariant preserved by every event)', 'Sched/Inv'),
                                                   ('Sched.Guards / Sched.Final', 'Sched/Final')])
